@@ -92,12 +92,11 @@ class StreamCollection:
         raise ValueError("Stream not found in collection.")
 
     def _ensure_sorted(self):
-        """(Internal) Sort streams if needed."""
-        if self._needs_sort:
-            self._sorted_cache = sorted(
-                self._streams.values(), key=self._sort_key, reverse=self._sort_reverse
-            )
-            self._needs_sort = False
+        """(Internal) Sort streams. Members are mutable, so a cached order can go stale: always re-derive it."""
+        self._sorted_cache = sorted(
+            self._streams.values(), key=self._sort_key, reverse=self._sort_reverse
+        )
+        self._needs_sort = False
 
     def __iter__(self):
         self._ensure_sorted()
